@@ -78,6 +78,10 @@ class Engine:
         self.export_every = 0
         self.obligations = 0
         self.discharged = 0
+        self._var_cache = {}
+        self._range_solver = z3.Solver()
+        self._range_solver.set("timeout", SOLVER_TIMEOUT_MS)
+        self._or_cache = {}
         self.frozen = 0
         self.pending_v = False
         self.prefix_pc = None
@@ -109,14 +113,22 @@ class Engine:
     def int(self, name, lo=None, hi=None):
         if self.dead:
             return lo if lo is not None else 0
-        v = z3.Int(name)
-        cs = []
-        if lo is not None:
-            cs.append(v >= lo)
-        if hi is not None:
-            cs.append(v <= hi)
-        self._declare(name, v, z3.And(*cs) if cs else None)
-        return SymInt(v)
+        ck = name
+        hit = self._var_cache.get(ck)
+        if hit is not None and hit[2] != (lo, hi):
+            raise Inconclusive("variable %r declared with two different ranges" % name)
+        if hit is None:
+            v = z3.Int(name)
+            cs = []
+            if lo is not None:
+                cs.append(v >= lo)
+            if hi is not None:
+                cs.append(v <= hi)
+            hit = self._var_cache[ck] = (v, z3.And(*cs) if cs else None, (lo, hi))
+            if hit[1] is not None:
+                self._range_solver.add(hit[1])
+        self._declare(name, hit[0], hit[1])
+        return SymInt(hit[0])
 
     def bool(self, name):
         if self.dead:
@@ -423,7 +435,10 @@ class Engine:
                         self.pcs.append(z3.And(*self.pc) if self.pc else z3.BoolVal(True))
                     if len(self.samples) < self.want_samples and ended == "ok":
                         self._sample()
-                gc.collect()
+                self._since_gc = getattr(self, "_since_gc", 0) + 1
+                if self._since_gc >= 32:
+                    self._since_gc = 0
+                    gc.collect()
                 tr = self.trace
                 while len(tr) > frozen:
                     ent = tr[-1]
@@ -445,6 +460,7 @@ class Engine:
                 if deadline is not None and time.time() > deadline:
                     return False
         finally:
+            gc.collect()
             if gc_was:
                 gc.enable()
 
@@ -498,13 +514,20 @@ class Engine:
 
 
 # ---------------------------------------------------------------------- proxies
+_IV = {}
+
+
 def _zi(x):
     if isinstance(x, SymInt):
         return x.z
-    if isinstance(x, bool):
-        return z3.IntVal(int(x))
     if isinstance(x, int):
-        return z3.IntVal(x)
+        x = int(x)
+        v = _IV.get(x)
+        if v is None:
+            v = z3.IntVal(x)
+            if len(_IV) < 100000:
+                _IV[x] = v
+        return v
     return None
 
 
@@ -735,6 +758,25 @@ class SymInt:
             return NotImplemented
         E = Engine.cur
         if E is None or E.dead:
+            return SymInt(self.z + o.z)
+        # x | y == x + y when the bit ranges are disjoint.  First try a proof from the
+        # variables' declared ranges only (valid on every path, cached), then under the
+        # path condition.
+        key = (self.z.sexpr(), o.z.sexpr())
+        hit = E._or_cache.get(key)
+        if hit is None:
+            hit = False
+            for a, b in ((self.z, o.z), (o.z, self.z)):
+                for k in (16, 8, 4, 20, 24, 32):
+                    ok = z3.And(a % (1 << k) == 0, b >= 0, b < (1 << k), a >= 0)
+                    E.checks += 1
+                    if E._range_solver.check(z3.Not(ok)) == z3.unsat:
+                        hit = True
+                        break
+                if hit:
+                    break
+            E._or_cache[key] = hit
+        if hit:
             return SymInt(self.z + o.z)
         for a, b in ((self.z, o.z), (o.z, self.z)):
             for k in (4, 8, 16, 20, 24, 32):
